@@ -135,8 +135,8 @@ object otherwise the results are not totally reliable upon return
         std::lock_guard<std::mutex> lock(mapLock);
         for (auto obj = objectMap.begin(); obj != objectMap.end(); ++obj) {
             if (operand(obj->second)) {
-                objectMap.erase(obj);
                 auto fnd2 = typeMap.find(obj->first);
+                objectMap.erase(obj);
                 if (fnd2 != typeMap.end()) {
                     typeMap.erase(fnd2);
                 }
